@@ -41,7 +41,7 @@ func prelude(body string) string {
 	b.WriteString("(declare-fun mkiface (Int Int) Int)\n(declare-fun dyntag (Int) Int)\n(declare-fun payload (Int) Int)\n")
 	b.WriteString("(declare-fun sub (Int Int) Int)\n(declare-fun subp (Int) Int)\n(declare-fun subi (Int) Int)\n")
 	b.WriteString("(declare-fun stridx (Str Str) Int)\n(declare-fun crcrange (Int Int Int) Int)\n(declare-fun strle (Str Str) Bool)\n")
-	b.WriteString("(declare-fun byteof (Int Int) Int)\n(declare-fun slid (Int Int Int) Int)\n(declare-fun crcsum (Int Int) Int)\n(declare-fun rdbyte (Int Int Int) Int)\n")
+	b.WriteString("(declare-fun byteof (Int Int) Int)\n(declare-fun slid (Int Int Int) Int)\n(declare-fun crcsum (Int Int) Int)\n(declare-fun rdbyte (Int Int Int) Int)\n(declare-fun crcarr ((Array Int Int) Int Int) Int)\n")
 	if strings.Contains(body, "(rdbyte ") {
 		b.WriteString("(assert (forall ((r Int) (g Int) (i Int)) (! (and (<= 0 (rdbyte r g i)) (<= (rdbyte r g i) 255)) :pattern ((rdbyte r g i)))))\n")
 	}
